@@ -203,7 +203,7 @@ def files_case(rec, hub, rng, tier, d, tmpdir, i):
     for l, n, it, dt in d.dims:
         style = (str(rng.choice(["row", "column"])), bool(rng.integers(0, 2)))
         styles[l] = style
-        path = os.path.join(tmpdir, f"dim_{i}_{l}.{ext}")
+        path = os.path.join(tmpdir, f"dim_{i % 2}_{l}.{ext}")  # paths recur with new content: nothing may be remembered per path
         sheet = f"sheet {l}" if route == "xlsx-named-sheets" else None
         write_dimension_file(path, n, it, style, xlsx=xlsx, sheet=sheet, decoy_sheet=xlsx)
         dim_files[n] = path
@@ -212,7 +212,7 @@ def files_case(rec, hub, rng, tier, d, tmpdir, i):
     for p in d.parameters:
         vals = (rng.integers(1, 4000, size=tuple(size[l] for l in p["letters"])).astype(float)) / 8.0
         truth[p["name"]] = vals
-        path = os.path.join(tmpdir, f"par_{i}_{p['name'].replace(' ', '_')}.{ext}")
+        path = os.path.join(tmpdir, f"par_{i % 2}_{p['name'].replace(' ', '_')}.{ext}")
         sheet = f"sheet {p['name']}" if route == "xlsx-named-sheets" else None
         write_parameter_file(path, d, p, vals, rng, xlsx=xlsx, sheet=sheet, decoy_sheet=xlsx)
         par_files[p["name"]] = path
@@ -220,6 +220,19 @@ def files_case(rec, hub, rng, tier, d, tmpdir, i):
     sig = "|".join(f"{l}:{s[0]}{'+h' if s[1] else ''}" for l, s in sorted(styles.items()))
     for l, n, it, dt in d.dims:
         rec.event(MD, sig=f"{route}|{styles[l]}|{dt.__name__}|{len(it)}", cls=f"dimension-file|{route}|{styles[l][0]}|{'header' if styles[l][1] else 'bare'}|{dt.__name__}")
+    if i % 5 == 0:
+        # an unrelated reader with its own pandas options, used earlier in the same process, must not influence later readers
+        decoy = os.path.join(tmpdir, f"decoy.{ext}")
+        try:
+            if xlsx:
+                pd.DataFrame({"head": ["u", "v"]}).to_excel(decoy, index=False)
+                fd.ExcelDimensionReader(dimension_files={"decoy": decoy}, header=0).read_dimension(fd.DimensionDefinition(name="decoy", letter="z", dtype=str))
+            else:
+                with open(decoy, "w") as fh:
+                    fh.write("head\nu;v\nw;x\n")
+                fd.CSVDimensionReader(dimension_files={"decoy": decoy}, sep=";", header=0).read_dimension(fd.DimensionDefinition(name="decoy", letter="z", dtype=str))
+        except Exception:
+            pass
     try:
         if route == "csv":
             mfa = fd.MFASystem.from_csv(definition, dimension_files=dim_files, parameter_files=par_files)
@@ -358,7 +371,7 @@ def run(rec, hub, tier, seed, shard, nshards, budget):
             i = kk * nshards + shard
             rec.set_case(driver="c18.system", seed=seed, tier=tier, shard=shard, nshards=nshards, idx=i)
             one(rec, hub, seed, tier, i, tmpdir)
-            if kk % 20 == 19:
+            if kk % 50 == 49:
                 for f in os.listdir(tmpdir):
                     os.unlink(os.path.join(tmpdir, f))
     finally:
